@@ -379,6 +379,89 @@ impl C13 {
     }
 }
 
+impl C13 {
+    /// One explicit RealWorld case: file class/name/bytes, sub-command, level and stdin are all in the scenario.
+    pub fn real_case(&self, sc: &Scenario) -> (u64, Option<Violation>) {
+        let bin = match real::binary() {
+            Ok(b) => b,
+            Err(e) => {
+                println!("HARNESS-ERROR: {}", e);
+                std::process::exit(2);
+            }
+        };
+        let fclass = sc.file_fault.as_str();
+        let sub = sc.subcommand.as_str();
+        let content = match fclass {
+            "missing" | "directory" => None,
+            _ => Some(sc.file_content()),
+        };
+        let unreadable = matches!(fclass, "missing" | "directory" | "no_ext" | "wrong_ext") || content.as_ref().map_or(false, |c| std::str::from_utf8(c).is_err());
+        let (want, ncmds) = if unreadable {
+            (Want::Refuse, 0)
+        } else {
+            let text = String::from_utf8(content.clone().unwrap_or_default()).unwrap_or_default();
+            let cmds = cmds_from_parsed(&parse::parse(text));
+            if cmds.iter().any(|c| c.count() >= (1 << 31)) {
+                return (0, None);
+            }
+            if sub == "check" {
+                (Want::Status0, cmds.len())
+            } else {
+                (want_for(&cmds, &sc.stdin, sc.budget, sc.cap_bits).0, cmds.len())
+            }
+        };
+        if want == Want::AnyDefined {
+            // cannot bound a real process by steps: only terminating cases go to RealWorld
+            return (0, None);
+        }
+        let dir = sim::scratch_dir().join("c13real");
+        let _ = std::fs::remove_dir_all(&dir);
+        std::fs::create_dir_all(&dir).expect("mkdir");
+        let path = dir.join(&sc.file_name);
+        if fclass == "directory" {
+            std::fs::create_dir_all(&path).expect("mkdir");
+        } else if let Some(c) = &content {
+            std::fs::write(&path, c).expect("write");
+        }
+        let mut args: Vec<String> = vec![sub.into()];
+        if sub == "run" {
+            args.push(format!("-O{}", sc.level));
+        }
+        args.push("--color".into());
+        args.push("never".into());
+        args.push(path.to_string_lossy().into_owned());
+        let chunks = real::chunks_from_plan(&sc.plan, 64);
+        let r = match real::run(&bin, &args, None, &sc.stdin, &chunks, Duration::from_secs(60)) {
+            Ok(r) => r,
+            Err(e) => {
+                println!("HARNESS-ERROR: {}", e);
+                std::process::exit(2);
+            }
+        };
+        let _ = std::fs::remove_dir_all(&dir);
+        let diag = has_diag(&r.stderr);
+        let ok_class = !r.timed_out && r.signal.is_none() && matches!(r.status, Some(0) | Some(1));
+        let ok_dir = match &want {
+            Want::Refuse => r.status == Some(1) && diag && only_marker_lines(&r.stdout),
+            Want::Status0 => r.status == Some(0),
+            Want::ProgramExit(c) => r.status == Some(*c),
+            Want::Diagnosed => r.status == Some(1) && diag,
+            Want::AnyDefined => true,
+        };
+        let listing_ok = !(sub == "check" && r.status == Some(0)) || String::from_utf8_lossy(&r.stdout).lines().filter(|l| !l.starts_with("==> ")).count() == ncmds;
+        if !(ok_class && ok_dir && listing_ok) {
+            let mut v = Violation::new(
+                &format!("real/{}/file:{}/{}", sub, fclass, if !ok_class { "ending" } else { "direction" }),
+                format!("{:?}; exit status 0/1 only, never a panic (101) or signal", want),
+                format!("{} ; stdout {:?} ; stderr {:?}", r.describe(), truncate(&String::from_utf8_lossy(&r.stdout), 160), truncate(&String::from_utf8_lossy(&r.stderr), 300)),
+            );
+            v.world = "real";
+            return (1, Some(v));
+        }
+        (1, None)
+    }
+}
+
 impl Property for C13 {
     fn id(&self) -> &'static str {
         "C13"
@@ -424,6 +507,9 @@ impl Property for C13 {
         sc.budget = 300;
         sc.cap_bits = 96;
         sc.set_knob("level_base", rng.below(3) as i64);
+        if rng.chance(20) {
+            sc.set_knob("layout", 1);
+        }
         sc
     }
     fn run(&self, sc: &Scenario) -> RunOut {
@@ -489,124 +575,47 @@ impl Property for C13 {
     }
     fn post(&self, tier: Tier, seed: u64, stats: &mut Stats) -> Option<(Scenario, Violation)> {
         // RealWorld: the real binary including main.rs and clap
-        let bin = match real::binary() {
-            Ok(b) => b,
-            Err(e) => {
-                println!("HARNESS-ERROR: {}", e);
-                std::process::exit(2);
-            }
-        };
         let n = match tier {
             Tier::Quick => 40,
             Tier::Thorough => 3000,
         };
-        let root = sim::scratch_root().join("c13real");
-        let mut spawned = 0u64;
-        for i in 0..n {
-            let sc = make_scenario(self, seed, i, tier);
+        let (spawned, bad) = crate::runner::par_find(n, |i| {
+            let base = make_scenario(self, seed, i, tier);
             let level = (i % 3) as u8;
+            let mut spawned = 0;
             for (fi, fclass) in FILE_CLASSES.iter().enumerate() {
                 if *fclass == "non_utf8_name" {
                     // clap refuses such an argument with its own usage error (status 2) before the tool
                     // sees it: command-line syntax is outside the property; the class runs in SimWorld only
                     continue;
                 }
-                let fv = file_variant(&sc, fclass);
-                let dir = root.join(format!("{}-{}", i, fi));
-                std::fs::create_dir_all(&dir).expect("mkdir");
-                let path = variant_path(&dir, &fv);
-                if fv.is_dir {
-                    std::fs::create_dir_all(&path).expect("mkdir");
-                } else if let Some(c) = &fv.content {
-                    std::fs::write(&path, c).expect("write");
+                let fv = file_variant(&base, fclass);
+                let mut sc = base.clone();
+                sc.file_fault = fclass.to_string();
+                sc.file_name = fv.name.clone();
+                sc.file_bytes = fv.content.clone();
+                sc.subcommand = if (i as usize + fi) % 4 == 0 { "check" } else { "run" }.to_string();
+                sc.level = level;
+                if fi % 2 == 1 {
+                    sc.stdin = stdin_variant(&base, STDIN_CLASSES[(i as usize + fi) % 5]);
                 }
-                let sub = if (i as usize + fi) % 4 == 0 { "check" } else { "run" };
-                let stdin = if fi % 2 == 0 { sc.stdin.clone() } else { stdin_variant(&sc, STDIN_CLASSES[(i as usize + fi) % 5]) };
-                let (want, ncmds) = if fv.unreadable {
-                    (Want::Refuse, 0)
-                } else {
-                    let text = String::from_utf8(fv.content.clone().unwrap_or_default()).unwrap_or_default();
-                    let cmds = cmds_from_parsed(&parse::parse(text));
-                    if cmds.iter().any(|c| c.count() >= (1 << 31)) {
-                        let _ = std::fs::remove_dir_all(&dir);
-                        continue;
-                    }
-                    if fv.lenient {
-                        // any defined ending, but only for runs the model bounds
-                        match want_for(&cmds, &stdin, sc.budget, sc.cap_bits).0 {
-                            Want::AnyDefined => (Want::AnyDefined, 0),
-                            _ => (Want::Diagnosed, usize::MAX),
-                        }
-                    } else if sub == "check" {
-                        (Want::Status0, cmds.len())
-                    } else {
-                        (want_for(&cmds, &stdin, sc.budget, sc.cap_bits).0, cmds.len())
-                    }
-                };
-                let lenient_real = ncmds == usize::MAX;
-                if want == Want::AnyDefined {
-                    // cannot bound a real process by steps: only terminating cases go to RealWorld
-                    let _ = std::fs::remove_dir_all(&dir);
-                    continue;
-                }
-                let mut args: Vec<String> = vec![sub.into()];
-                if sub == "run" {
-                    args.push(format!("-O{}", level));
-                }
-                args.push("--color".into());
-                args.push("never".into());
-                let chunks = real::chunks_from_plan(&sc.plan, 64);
-                let r = match real::run_os(&bin, &args, Some(path.as_os_str()), &stdin, &chunks, Duration::from_secs(60)) {
-                    Ok(r) => r,
-                    Err(e) => {
-                        println!("HARNESS-ERROR: {}", e);
-                        std::process::exit(2);
-                    }
-                };
-                spawned += 1;
-                let _ = std::fs::remove_dir_all(&dir);
-                let diag = has_diag(&r.stderr);
-                let ok_class = !r.timed_out && r.signal.is_none() && matches!(r.status, Some(0) | Some(1));
-                let ok_dir = lenient_real || match &want {
-                    Want::Refuse => r.status == Some(1) && diag && only_marker_lines(&r.stdout),
-                    Want::Status0 => r.status == Some(0),
-                    Want::ProgramExit(c) => r.status == Some(*c),
-                    Want::Diagnosed => r.status == Some(1) && diag,
-                    Want::AnyDefined => true,
-                };
-                let listing_ok = lenient_real || !(sub == "check" && r.status == Some(0))
-                    || String::from_utf8_lossy(&r.stdout).lines().filter(|l| !l.starts_with("==> ")).count() == ncmds;
-                if !(ok_class && ok_dir && listing_ok) {
-                    let mut s = sc.clone();
-                    s.file_fault = fclass.to_string();
-                    s.file_bytes = fv.content.clone();
-                    s.file_name = fv.name.clone();
-                    s.subcommand = sub.to_string();
-                    s.level = level;
-                    s.stdin = stdin;
-                    let mut v = Violation::new(
-                        &format!("real/{}/file:{}/{}", sub, fclass, if !ok_class { "ending" } else { "direction" }),
-                        format!("{:?}; exit status 0/1 only, never a panic (101) or signal", want),
-                        format!(
-                            "{} ; stdout {:?} ; stderr {:?}",
-                            r.describe(),
-                            truncate(&String::from_utf8_lossy(&r.stdout), 160),
-                            truncate(&String::from_utf8_lossy(&r.stderr), 300)
-                        ),
-                    );
-                    v.world = "real";
-                    let _ = std::fs::remove_dir_all(&root);
-                    return Some((s, v));
+                let (c, v) = self.real_case(&sc);
+                spawned += c;
+                if let Some(v) = v {
+                    return (spawned, Some((sc, v)));
                 }
             }
-        }
-        let _ = std::fs::remove_dir_all(&root);
+            (spawned, None)
+        });
         stats.extra.push(("realworld_spawns".into(), J::Int(spawned as i64)));
         stats.extra.push((
             "realworld_note".into(),
             J::str("real binary (guard off, main.rs + clap included) on real files and pipes; only cases the model bounds (refusals, check, terminating runs); chunk/reader interleaving on the pipe is not controlled"),
         ));
-        None
+        bad
+    }
+    fn replay_real(&self, sc: &Scenario) -> Option<Violation> {
+        self.real_case(sc).1
     }
     fn components(&self) -> J {
         J::obj()
